@@ -77,6 +77,8 @@ def describe(line):
     if e.get("op") == "Big":
         return "long byte string (len %s, string=%s): psize=%s n=%s nw=%s consumed=%s rt=%s shortfails=%s shift=%s" % tuple(
             e.get(k) for k in ("len", "string", "psize", "n", "nw", "consumed", "rt", "shortfails", "shift"))
+    if e.get("op") == "Bulk" and e.get("what"):
+        return "%s: %s of %s replies wrong%s" % (e["what"], e.get("bad"), e.get("n"), " (panic)" if e.get("panic") else "")
     if e.get("op") == "Bulk":
         return "bulk decode of distinct short values: %s of %s came back as another value%s" % (
             e.get("bad"), e.get("n"), " (panic)" if e.get("panic") else "")
